@@ -460,3 +460,30 @@ Example C11_example_glued_box :
   /\ map lw (flat (break_lines 120 0 ex_glued)) = [70; 50]
   /\ lw ([Open 20; Word 20; Space Normal 10; Word 20; Space Normal 10] ++ [Word 10; Close 20; Word 20]) = 130.
 Proof. vm_compute. repeat split; reflexivity. Qed.
+
+(* ---- inline boxes (fourth round): the boolean Check/C11.v evaluates on every inline box of a
+   laid-out line decides that the content area of the box spans exactly its in-flow children *)
+Theorem C11_inline_box_extent_decided : forall b : iboxo, ibox_ok b = true <-> ibox_spans b.
+Proof. exact ibox_ok_spec. Qed.
+Print Assumptions C11_inline_box_extent_decided.
+
+Example C11_example_inline_box_wider_than_content :
+  ibox_ok (mkIB 90 185 90 155) = false /\ ibox_ok (mkIB 90 155 90 155) = true.
+Proof. vm_compute. split; reflexivity. Qed.
+
+(* ---- vertical-align (fourth round): the booleans Check/C11.v evaluates on the line boxes of the
+   `valign` stream decide "every line is as tall as the line-height of each inline box with text
+   on it and as each atomic inline on it" and "the lines stack" *)
+Theorem C11_line_tall_decided : forall l : vline, vline_tall_b l = true <-> vline_tall l.
+Proof. exact vline_tall_b_spec. Qed.
+Print Assumptions C11_line_tall_decided.
+
+Theorem C11_lines_stacked_decided : forall ls : list vline, vstacked_b ls = true <-> vstacked ls.
+Proof. exact vstacked_b_spec. Qed.
+Print Assumptions C11_lines_stacked_decided.
+
+(* `x <span style="vertical-align:top">a<span style="vertical-align:bottom;line-height:40px">b</span></span> c`
+   with line-height 10px: a first line of 10px is not tall enough *)
+Example C11_example_nested_top_bottom :
+  vline_tall_b (mkVL 0 10 [10 # 1; 10 # 1; 40 # 1; 10 # 1]) = false /\ vline_tall_b (mkVL 0 40 [10 # 1; 10 # 1; 40 # 1; 10 # 1]) = true.
+Proof. vm_compute. split; reflexivity. Qed.
